@@ -268,7 +268,7 @@ Section Stream.
       { inversion E; subst. cbn [fst snd]. eexists. apply Fd_same. rewrite XE. exact X1. }
       destruct (negb (exists_acct (xw s1) addr) && negb (is_precompile addr) && is_eip158 && (value =? 0)).
       { inversion E; subst. cbn [fst snd]. eexists.
-        eapply (frame_tree s (dbg_open W true s1 (S d) 241 caller addr false input gas (Some value)) _ _ _ _ 241 caller addr input gas (Some value) [] (gas - gas) None [] [] []).
+        eapply (frame_tree s (dbg_open W true s1 (S d) 241 caller addr false input gas (Some value)) _ _ _ _ 241 caller addr input gas (Some value) [] (used64 gas gas) None [] [] []).
         - cbn. rewrite X1. reflexivity.
         - apply Ad_refl.
         - apply Fd_refl.
@@ -283,7 +283,7 @@ Section Stream.
       destruct (is_precompile addr).
       { destruct (tail W (xw s1) (precompile addr (if artela then Some caller else None) input gas) s3) as [r' s''] eqn:T.
         inversion E; subst. cbn [fst snd]. eexists.
-        eapply (frame_tree s s3 s3 s3 s'' _ 241 caller addr input gas (Some value) (r_ret r) (gas - r_gas r) (r_err r) [] [] []).
+        eapply (frame_tree s s3 s3 s3 s'' _ 241 caller addr input gas (Some value) (r_ret r) (used64 gas (r_gas r)) (r_err r) [] [] []).
         - exact X3.
         - apply Ad_refl.
         - apply Fd_refl.
@@ -291,7 +291,7 @@ Section Stream.
         - rewrite XE. reflexivity. }
       destruct (code_of (xw s3) addr) as [|c0 code] eqn:Ecode.
       { inversion E; subst. cbn [fst snd]. eexists.
-        eapply (frame_tree s s3 s3 s3 s3 _ 241 caller addr input gas (Some value) [] (gas - gas) None [] [] []).
+        eapply (frame_tree s s3 s3 s3 s3 _ 241 caller addr input gas (Some value) [] (used64 gas gas) None [] [] []).
         - exact X3.
         - apply Ad_refl.
         - apply Fd_refl.
